@@ -86,14 +86,13 @@ def describe(res, with_value):
     return out
 
 
-def run_alg(mk, case, with_value):
+def run_alg(mk, get_problem, with_value):
     import msdm.algorithms.search as S
     shim = RandomShim()
     saved = S.random
     S.random = shim
     try:
-        prob = build_problem(case)
-        out = describe(mk().plan_on(prob), with_value)
+        out = describe(mk().plan_on(get_problem()), with_value)
     except BaseException as e:
         if isinstance(e, (KeyboardInterrupt, SystemExit)):
             raise
@@ -104,16 +103,49 @@ def run_alg(mk, case, with_value):
     return out
 
 
-def one(case, pl):
+def nested_heuristic(case):
+    """heuristic_value(s) = - (least cost from s in the relaxed problem), found lazily by a nested A* on a second,
+    non-DSP MDP (so from_mdp builds another wrapper while the outer search is running); None -> -inf"""
+    from msdm.algorithms.search import AStarSearch
+    seen = {}
+
+    def hv(s):
+        if s not in seen:
+            sub = dict(case, succ=case["relaxed_succ"], start=int(s), repr=case["relaxed_repr"])
+            r = AStarSearch().plan_on(build_problem(sub))
+            seen[s] = float("inf") if r is None else float(r.path_value)
+        return -seen[s]
+    return hv, seen
+
+
+def search_both(case, get_problem):
     from msdm.algorithms.search import AStarSearch, BreadthFirstSearch
-    hv = [float("inf") if x == "inf" else float(x) for x in case["h"]]     # heuristic COST per state
-    seed = case["seed"]
-    a = run_alg(lambda: AStarSearch(heuristic_value=lambda s: -hv[s], seed=seed,
+    if case.get("scenario") == "nested_h":
+        hfun, seen = nested_heuristic(case)
+    else:
+        hv = [float("inf") if x == "inf" else float(x) for x in case["h"]]     # heuristic COST per state
+        hfun, seen = (lambda s: -hv[s]), None
+    a = run_alg(lambda: AStarSearch(heuristic_value=hfun, seed=case["seed"],
                                     randomize_action_order=bool(case["shuffle"]),
-                                    tie_breaking_strategy=case["tie"]), case, True)
+                                    tie_breaking_strategy=case["tie"]), get_problem, True)
+    if seen is not None:
+        a["h_seen"] = {str(int(s)): fj(v) for s, v in seen.items()}
     b = run_alg(lambda: BreadthFirstSearch(seed=case["bfs_seed"],
-                                           randomize_action_order=bool(case["shuffle"])), case, False)
+                                           randomize_action_order=bool(case["shuffle"])), get_problem, False)
     return {"astar": a, "bfs": b}
+
+
+def one(case, pl):
+    if case.get("scenario") == "two_wrappers":
+        # two wrappers of two different MDPs are alive at once; the OLDER one is planned on first, then the newer
+        from msdm.core.mdp.deterministic_shortest_path import DeterministicShortestPathProblem as DSP
+        other = case["other"]
+        w1 = DSP.from_mdp(build_problem(case))
+        w2 = DSP.from_mdp(build_problem(other))
+        res = search_both(case, lambda: w1)
+        res["other"] = search_both(other, lambda: w2)
+        return res
+    return search_both(case, lambda: build_problem(case))
 
 
 if __name__ == "__main__":
